@@ -9,8 +9,20 @@ def step(op, R, solver="kissat", timeout=900, tiers=("quick", "thorough"), extra
              what="induction step: arbitrary 64-bit INV pre-state, one real channel_%s, INV + unread-list refinement after" % op,
              bounds=dict(readers=R, capacity="1..2^40", lap_counter="<2^62", state="all fields symbolic 64-bit"))
 
+def hist(K, capmax, R=2, timeout=3000, solver="cadical"):
+    return H("hist_K%d_cap%d_R%d" % (K, capmax, R), "harness/channel/hist.c", env=ENV,
+             defines=["K=%d" % K, "CAPMAX=%d" % capmax, "R=%d" % R, "VERIF_FIXED_ALLOC=%d" % capmax], unwind=max(capmax, K, R) + 2, solver=solver,
+             timeout=timeout, mem_gb=28, est_gb=12, ignore=[r"pointer_arithmetic.*pointer NULL in out \+"],
+             what="bounded history from channel_new: %d symbolic operations (write_map/commit/abort/map/unmap), capacity 4..%d, %d readers joining at any time, real data buffer stamped with sequence numbers: byte-exact in-order delivery, empty <=> drained, writer regions never hold unconsumed bytes, INV holds in every reached state" % (K, capmax, R),
+             bounds=dict(operations=K, capacity="4..%d" % capmax, readers=R))
+
 def harnesses(tier, findings):
-    return _harnesses(tier, findings)
+    hs = _harnesses(tier, findings)
+    if tier == "thorough":
+        hs += [hist(6, 8), hist(8, 6, timeout=3500)]
+    if tier == "probe":
+        return [hist(6, 8, timeout=1500), hist(7, 6, timeout=1500)]
+    return hs
 
 def _harnesses(tier, findings):
     R = 3 if tier == "quick" else 8
